@@ -63,7 +63,7 @@ def run(ctx):
         "explanation": "every message over tags {1,2,3,255,256} (each tag with its own field kind: int, string, list, nested message, "
                        "uint64) in every write order (all permutations of every subset) x every non-empty reader tag set: the "
                        "specification predicts presence and value per reader tag (TagIndependence checked by TLC); the library must "
-                       "agree, absent tags read as zero/empty without error, and Copy and Merge through a writer that rewrites only "
+                       "agree, absent tags read as zero/empty without error, and Copy and Merge through a writer (at the root, and nested in a parent that has written fields with the same tags) that rewrites only "
                        "the tags it knows preserve all other fields byte for byte. Generated code: schema pairs (A, B) with B derived by 1-3 "
                        "edits (add a field with a fresh tag, remove, rename, reorder) from two base messages covering scalars, strings, "
                        "bytes, any, enums, structs, nested and imported messages and lists; 4 value assignments per pair written by A's "
